@@ -137,7 +137,7 @@ def gen_cases(spec, ctx):
                 if idx % spec["of"] == spec["k"]:
                     a, b = {"bare": (x, y), "list": ([x], [y]), "dict": ({"k": x}, {"k": y})}[wrap]
                     yield {"family": "json", "a": a, "b": b, "ds": gen.DS[idx % 3], "le": gen.LE[(idx // 3) % 3],
-                           "cli": wrap != "bare" and idx % spec["cli_every"] == 0, "what": "scalar-table"}
+                           "cli": idx % spec["cli_every"] == 0, "what": "scalar-table"}    # (bare: the whole file is one scalar)
                 idx += 1
         return
     if st == "pairs" or st == "subprocess":
